@@ -38,6 +38,8 @@ type VerifOp struct {
 	Added   bool
 	Counter uint64 // Incr result
 	Attempt int    // callback invocation count for interactive updates
+	// PrevTombstone: the state the (last) update callback was computed from had no body but a CAS (a tombstone)
+	PrevTombstone bool
 }
 
 type VerifAction int
@@ -489,6 +491,7 @@ func (v *VerifDataStore) WriteUpdateWithXattrs(ctx context.Context, k string, xa
 	wrapped := func(current []byte, xattrs map[string][]byte, cas uint64) (sgbucket.UpdatedDoc, error) {
 		upd, cbErr := callback(current, xattrs, cas)
 		op.Attempt++
+		op.CasIn, op.PrevTombstone = cas, current == nil && cas != 0
 		if cbErr != nil {
 			return upd, cbErr
 		}
